@@ -345,7 +345,7 @@ class Formatter:
 
     def _exists(self, value, prec):
         sql = self.dispatch(value, precedence["exists"])
-        if "from" in value:
+        if is_data(value) and "from" in value:
             return f"EXISTS {sql}"
         return f"{sql} IS NOT NULL"
 
